@@ -46,6 +46,11 @@ CLAIMED["C19"] = ("5/C19",
    "AST/type-based determinism lint, genesis field-coverage analysis, keeper-field write scan with call-graph classification")
 FIX_COMMITS.append("59282cb358")
 
+CLAIMED["C20"] = ("5/C20",
+   "Interprocedural guard propagation (rule GI) over the workspace call graph: for all 37 message handlers of concentrated-liquidity, lockup, superfluid, tokenfactory and valset-pref (signer field read from each message's GetSigners), every bounded-depth call path to a privileged sink (lock, position and denom mutators) carries a branch that compares a signer-identity value with the stored object's owner/admin and fails on mismatch — directly, via a checked guard helper, inside the sink on all success paths, or modulo the governance-module equality — with three creation/own-index exemptions listed with side conditions.",
+   "Not covered: 'all balances and records unchanged' on failure (SDK transaction atomicity trusted), object reachability over histories, wasm hooks. Bounds: call depth 7, helper depth 3; class-hierarchy resolution of interface calls.",
+   "call-graph obligation propagation with SSA guard facts (actor-identity / owner-like term classification)")
+
 NOT_YET = "check not built yet in this revision (static rule set under construction; see DESIGN.md section 5)"
 
 def main():
